@@ -393,19 +393,19 @@ class Connection:
         com_field_list = parse_com_field_list(self.client_charset, data)
         sql = com_field_list_to_show_statement(com_field_list)
         result = await self.query(sql=sql, query_attrs={})
-        columns = b"".join(
-            [
-                make_column_definition_41(
-                    server_charset=self.server_charset,
-                    table=com_field_list.table,
-                    name=row[0],
-                    is_com_field_list=True,
-                    default=row[4],
-                )
-                async for row in aiterate(result.rows)
-            ]
-        )
-        await self.stream.write(columns)
+        columns = [
+            make_column_definition_41(
+                server_charset=self.server_charset,
+                table=com_field_list.table,
+                name=row[0],
+                is_com_field_list=True,
+                default=row[4],
+            )
+            async for row in aiterate(result.rows)
+        ]
+        # One packet per column definition
+        for column in columns:
+            await self.stream.write(column, drain=False)
         await self.stream.write(self.ok_or_eof())
 
     async def handle_query(self, data: bytes) -> None:
